@@ -7,17 +7,14 @@ CONSTANTS
   CompNames <- Comps1
   MaxDepth = 2
   MaxItems = 3
-  MaxSteps = 4
+  MaxSteps = 3
   MinSteps = 0
   Pick <- PickAll
   Variants = {}
   Dev = {}
   FieldOptions <- SmallOptions
+INVARIANT NoComponentGroup
 INIT Init
 NEXT Next
-INVARIANT Valid
-INVARIANT OwnTraits
-INVARIANT DistinctDefsDistinctTraits
-INVARIANT Export
 VIEW View
 CHECK_DEADLOCK FALSE
